@@ -294,11 +294,56 @@ Section Ident.
     forall m, e_op e = FindLocal m ->
       e_out e = match lookup_opt (txt m) (e_pre e) with Some u => OStr u | None => ONone end.
 
+  (* ---- 9. (strengthening round 4) find answers exactly the identifiers stored for that user at that
+          moment which match the filter -- EVERY field of it --, in the order of the store, each as the store
+          holds it (whole NameID), and nothing else: find_nameid is a function of the current store and of
+          the whole filter *)
+  Fixpoint decoded (cs : list string) : option (list nameid) :=
+    match cs with
+    | [] => Some []
+    | c :: r => match decode c, decoded r with Some n, Some l => Some (n :: l) | _, _ => None end
+    end.
+
+  Definition matches (flt : list (field * option string)) (n : nameid) : Prop :=
+    forall i v, In (i, v) flt -> get_field i n = v.
+  Definition matches_b (flt : list (field * option string)) (n : nameid) : bool :=
+    forallb (fun kv => ostr_eqb (get_field (fst kv) n) (snd kv)) flt.
+
+  Definition find_event (pre : trace) (e : event) : Prop :=
+    forall u flt, e_op e = FindNameid u flt ->
+      exists all, decoded (fw (e_pre e) u) = Some all /\ e_out e = ONids (filter (matches_b flt) all).
+
+  (* ---- 10. (strengthening round 4) a lookup that answers an identifier answers one the store holds for
+          that user (whole NameID: its code is an element of the user's entry), of the kind asked for *)
+  Definition lookup_event (pre : trace) (e : event) : Prop :=
+    forall u s q n, e_op e = MatchLocal u s q -> e_out e = ONid n ->
+      In (code n) (fw (e_pre e) u) /\ fmt n = Some NF_PERSISTENT /\ same_q (spq n) s /\ same_q (nq n) q.
+
+  (* ---- 11. (strengthening round 4) NewID / Terminate DO take effect on that identifier: a request that presents
+          an identifier the store holds (its code is one of the elements stored for the user its value maps to) and
+          asks for a change -- a NewID, a NewEncryptedID (keeps the SPProvidedID), a Terminate -- is answered with
+          that identifier carrying the SPProvidedID asked for, and afterwards the identifiers stored for that user
+          under that value are exactly that one *)
+  Definition wanted (n : nameid) (newid : option (option string)) (enc term : bool) : option (option string) :=
+    match newid with
+    | Some x => Some x
+    | None => if enc then Some (spid n) else if term then Some None else None
+    end.
+
+  Definition with_text (t : option string) (l : list string) : list string :=
+    filter (fun c => ostr_eqb (ctext c) t) l.
+
+  Definition effect_event (pre : trace) (e : event) : Prop :=
+    forall n newid enc term u x, e_op e = Manage n newid enc term ->
+      lookup_opt (txt n) (e_pre e) = Some u -> In (code n) (fw (e_pre e) u) -> wanted n newid enc term = Some x ->
+      exists n', e_out e = ONid n' /\ spid n' = x /\ with_text (txt n) (fw (e_post e) u) = [code n'].
+
   Definition ident_spec (tr : trace) : Prop :=
     wf tr ->
     all_pairs stable_pair tr /\ all_pairs distinct_pair tr /\ all_pairs reverse_pair tr
     /\ all_events valued_event tr /\ all_events transient_event tr /\ all_events manage_event tr
-    /\ all_events consistent_event tr /\ all_events issued_event tr /\ all_events findlocal_event tr.
+    /\ all_events consistent_event tr /\ all_events issued_event tr /\ all_events findlocal_event tr
+    /\ all_events find_event tr /\ all_events lookup_event tr /\ all_events effect_event tr.
 
   (* ---------------- boolean twins *)
   Definition req_eqb_user (a b : string) := String.eqb a b.
@@ -423,10 +468,45 @@ Section Ident.
     | _ => true
     end.
 
+  Definition find_event_b (pre : trace) (e : event) : bool :=
+    match e_op e with
+    | FindNameid u flt =>
+        match decoded (fw (e_pre e) u) with
+        | Some all => out_eqb (e_out e) (ONids (filter (matches_b flt) all))
+        | None => false
+        end
+    | _ => true
+    end.
+
+  Definition lookup_event_b (pre : trace) (e : event) : bool :=
+    match e_op e, e_out e with
+    | MatchLocal u s q, ONid n =>
+        mem (code n) (fw (e_pre e) u) && ostr_eqb (fmt n) (Some NF_PERSISTENT)
+        && same_qb (spq n) s && same_qb (nq n) q
+    | _, _ => true
+    end.
+
+  Definition effect_event_b (pre : trace) (e : event) : bool :=
+    match e_op e with
+    | Manage n newid enc term =>
+        match lookup_opt (txt n) (e_pre e), wanted n newid enc term with
+        | Some u, Some x =>
+            negb (mem (code n) (fw (e_pre e) u))
+            || match e_out e with
+               | ONid n' => ostr_eqb (spid n') x
+                            && list_eqb String.eqb (with_text (txt n) (fw (e_post e) u)) [code n']
+               | _ => false
+               end
+        | _, _ => true
+        end
+    | _ => true
+    end.
+
   Definition ident_spec_parts_b (tr : trace) : list bool :=
     [all_pairs_b stable_pair_b tr; all_pairs_b distinct_pair_b tr; all_pairs_b reverse_pair_b tr;
      all_events_b valued_event_b tr; all_events_b transient_event_b tr; all_events_b manage_event_b tr;
-     all_events_b consistent_event_b tr; all_events_b issued_event_b tr; all_events_b findlocal_event_b tr].
+     all_events_b consistent_event_b tr; all_events_b issued_event_b tr; all_events_b findlocal_event_b tr;
+     all_events_b find_event_b tr; all_events_b lookup_event_b tr; all_events_b effect_event_b tr].
 
   Definition ident_spec_b (tr : trace) : bool :=
     negb (wf_b tr) || forallb (fun b => b) (ident_spec_parts_b tr).
